@@ -15,6 +15,7 @@ import (
 	"io/ioutil"
 	"os"
 	"path/filepath"
+	"sync/atomic"
 	"time"
 
 	"github.com/getlantern/golog"
@@ -50,7 +51,7 @@ func main() {
 		os.Exit(2)
 	}
 	opts := &zv.Opts{TickMs: 1000, Stream: "inbound"}
-	if *mode == "run" {
+	if *mode == "run" || *mode == "free" {
 		for i := range job.Tables {
 			job.Tables[i].MaxFlush, job.Tables[i].MinFlush = 3, 1 // timer-driven flushes every few ms
 		}
@@ -84,6 +85,61 @@ func main() {
 		}
 		fmt.Fprintln(out, "done")
 		time.Sleep(time.Hour) // the parent kills us
+		return
+	}
+	if *mode == "free" {
+		// C18, free running: one goroutine inserts, timer-driven flushes every few
+		// milliseconds, and memstore-inclusive queries run all the while; every result
+		// is reported with the number of inserts that had returned before it started
+		// and after it ended
+		n.DB.VerifAdvanceClock(zv.Epoch.Add(1000 * time.Second))
+		var acked int64
+		done := make(chan struct{})
+		go func() {
+			defer close(done)
+			for _, p := range job.Points {
+				dims, _ := zv.ValueMap(p.Dims, time.Second)
+				vals, _ := zv.ValueMap(p.Vals, time.Second)
+				if err := n.DB.Insert("inbound", zv.Epoch.Add(time.Duration(p.TS)*time.Second), dims, vals); err == nil {
+					atomic.AddInt64(&acked, 1)
+				}
+				if job.PaceUs > 0 {
+					time.Sleep(time.Duration(job.PaceUs) * time.Microsecond)
+				}
+			}
+		}()
+		w := bufio.NewWriterSize(out, 1<<20)
+		q := 0
+		finished := false
+		tail := 0
+		for tail < 6 {
+			select {
+			case <-done:
+				finished = true
+			default:
+			}
+			if finished {
+				tail++
+				time.Sleep(5 * time.Millisecond)
+			}
+			for _, t := range job.Tables {
+				before := atomic.LoadInt64(&acked)
+				rows, _, err := n.Probe("SELECT * FROM "+t.Name, true, 10*time.Second)
+				after := atomic.LoadInt64(&acked)
+				line := map[string]interface{}{"a": "Free", "q": q, "t": t.Name, "rows": rows, "before": before, "after": after}
+				if rows == nil {
+					line["rows"] = []zv.Row{}
+				}
+				if err != nil {
+					line["err"] = err.Error()
+				}
+				b, _ := json.Marshal(line)
+				w.Write(append(b, '\n'))
+				q++
+			}
+		}
+		w.Flush()
+		n.CloseTimeout(3 * time.Second)
 		return
 	}
 	// verify: the virtual clock restarts at zero on every open
